@@ -550,8 +550,9 @@ def callee_params(w, fn, call):
   sigs = set()
   for fi in tg:
     ps = fi.params()
-    if fi.cls is not None and not any(dotted(d) == "staticmethod" for d in fi.decorators()):
-      ps = ps[1:]
+    if fi.cls is not None and fi.parent is None and \
+        not any(dotted(d) == "staticmethod" for d in fi.decorators()):
+      ps = ps[1:]       # a method's self (a closure defined inside a method has none)
     sigs.add(tuple(ps))
   if len(sigs) != 1:
     return None
@@ -926,9 +927,12 @@ def make_inlined_world(repo, anchors):
         fi2 = self.inliner.inlined(fi)
         if fi2 is not fi:
           self.inlined_functions.add(fi.qualname)
-        self._fns[fi.qualname] = Fn(self, fi2)
+        fi3 = normalise_keywords(self._plain, Fn(self._plain, fi2))
+        self._fns[fi.qualname] = Fn(self, fi3)
       return self._fns[fi.qualname]
-  return InlinedWorld(repo)
+  iw = InlinedWorld(repo)
+  iw._plain = World(repo)
+  return iw
 
 
 def analysed_separately(w, fi):
@@ -988,8 +992,7 @@ def decide(run, repo, rule_functions, anchors, world=None, more_anchors=None):
   not satisfied there (a failed obligation, or it cannot follow the code), ask again on the view
   with private helpers inlined and report that verdict if it is clean. Otherwise the plain
   verdict stands."""
-  from ..fn import World
-  w = world or World(repo)
+  w = world or make_norm_world(repo)
   state = {"iw": None}
   for f in rule_functions:
     buf = _Buffer(run)
@@ -1058,3 +1061,69 @@ def calls_E(fn, cfg=None):
 
 def nodes_calling_E(fn, pred, cfg=None):
   return {n.id for (n, c, nm) in calls_E(fn, cfg) if pred(c, nm, fn)}
+
+
+# ------------------------------------------------------------------------------------------
+# Keyword-normalised view: `f(a, q=b)` and `f(a, b)` are the same call. Every function wrapper
+# handed out by the worlds below is built from a copy of the function in which the keyword
+# arguments of a call are moved to their positional place whenever the callee's parameter list is
+# known (a repository function / method with one agreed signature); rules can then read
+# call.args[i] and compare normalised call text without caring how an argument was passed.
+
+def _own_calls(fnode):
+  out = []
+  for s in fnode.body:
+    for x in walk_no_nested(s, into_lambda=True):
+      if isinstance(x, ast.Call):
+        out.append(x)
+  return out
+
+
+def normalise_keywords(w, fn):
+  """FuncInfo like fn.fi, with keyword arguments moved into positional place where the callee's
+  signature is known (fn.fi itself when nothing changes). `w`/`fn` are used to resolve callees."""
+  from ..index import FuncInfo
+  fi = fn.fi
+  todo = {}
+  for c in _own_calls(fi.node):
+    if not c.keywords or any(k.arg is None for k in c.keywords) or \
+        any(isinstance(a, ast.Starred) for a in c.args):
+      continue
+    try:
+      ps = callee_params(w, fn, c)
+    except AnalysisError:
+      ps = None
+    if not ps or len(c.args) > len(ps):
+      continue
+    kw = {k.arg: i for i, k in enumerate(c.keywords)}
+    moved = []
+    for p_ in ps[len(c.args):]:
+      if p_ in kw:
+        moved.append(kw[p_])
+      else:
+        break
+    if moved:
+      todo[id(c)] = moved
+  if not todo:
+    return fi
+  node = copy.deepcopy(fi.node)
+  for o, c in zip(ast.walk(fi.node), ast.walk(node)):
+    if id(o) in todo:
+      idx = todo[id(o)]
+      c.args = list(c.args) + [c.keywords[i].value for i in idx]
+      c.keywords = [k for i, k in enumerate(c.keywords) if i not in idx]
+  return FuncInfo(fi.module, fi.cls, node, fi.qualname, fi.parent)
+
+
+def make_norm_world(repo):
+  """World whose function wrappers see keyword-normalised calls."""
+  from ..fn import World, Fn
+  plain = World(repo)
+  class NormWorld(World):
+    def fn(self, qualname):
+      return self.fn_of(self.repo.func(qualname))
+    def fn_of(self, fi):
+      if fi.qualname not in self._fns:
+        self._fns[fi.qualname] = Fn(self, normalise_keywords(plain, plain.fn_of(fi)))
+      return self._fns[fi.qualname]
+  return NormWorld(repo)
